@@ -72,11 +72,14 @@ func replicatorFor(kind string, source, sink blobstore.BlobAccess) replication.B
 
 // runMirrorScript executes a sequence of operations of Mirrored.tla on the real
 // composite over two model replicas.
-func runMirrorScript(id string, repl string, steps []mirrorStep, w *hx.Writer) (drift int, compared int) {
+func runMirrorScript(id string, variant int, repl string, steps []mirrorStep, w *hx.Writer) (drift int, compared int) {
 	u := NewUniverse([]string{"p", "q", "r"})
 	log := &CallLog{}
 	a := NewModelBackend("A", u, log)
 	b := NewModelBackend("B", u, log)
+	// what kind of buffer the replicas hand out and how the caller consumes it varies per script
+	a.Stream = []string{"", "reader", "chunks"}[variant%3]
+	b.Stream = []string{"", "reader", "chunks"}[(variant/3)%3]
 	if len(steps) > 0 {
 		for _, n := range steps[0].A0 {
 			a.Store(n, "")
@@ -116,7 +119,7 @@ func runMirrorScript(id string, repl string, steps []mirrorStep, w *hx.Writer) (
 					o["first"] = "B"
 				}
 				var data []byte
-				data, err = m.Get(ctx, u.Digest(st.Objs[0], "")).ToByteSlice(1 << 20)
+				data, err = Consume(m.Get(ctx, u.Digest(st.Objs[0], "")), variant/9)
 				if err == nil {
 					if string(data) == string(u.Data(st.Objs[0])) {
 						o["res"] = "Data"
@@ -202,7 +205,7 @@ func TestMirror(t *testing.T) {
 		if err := json.Unmarshal(line, &sc); err != nil {
 			t.Fatal(err)
 		}
-		d, c := runMirrorScript(sc.ID, sc.Repl, sc.Steps, w)
+		d, c := runMirrorScript(sc.ID, n, sc.Repl, sc.Steps, w)
 		drift += d
 		compared += c
 		n++
